@@ -356,4 +356,109 @@ theorem C02_bootrewrite_counterexample :
     have := H 1000 (by decide) witnessL2 (by decide) 0 _ h0
     revert this; decide
 
+/-! ## `(pid, None)` identities — CHARACTERISATION outside the property's quantifier
+
+C02 quantifies over histories of spawn/exit/reap/PID-reuse events, clock steps and psutil calls (`HistOK`).
+Whether `/proc/pid/stat` can be opened is not one of those events: on Linux the file is world-readable, and
+`Process._init` says so ("This should happen on Windows only … on all other platforms we are able to get create
+time for all PIDs").  Under a hidepid mount or an LSM it is not, and then (transcribed in `mkObj`) `_init`
+catches AccessDenied and leaves the provisional `_ident = (pid, None)`.  The theorems below say exactly what `==`
+and `is_running()` answer then (any state), and the counterexample shows that the statements of
+`C02_eq_iff_same_incarnation` / `C02_isRunning_iff_listed` do not extend to histories with unreadable stat
+files; the witnesses are replayed on the real code by the check (corpus `unknown-start-*`). -/
+
+/-- **C02_unknown_start_meaning.** In any state: `Process(pid)` for a listed PID whose stat file cannot be opened
+    succeeds; the new object has `_ident = (pid, None)`, no memoised create time, no sticky flag, its ghost is
+    the current owner, and `BOOT_TIME` is not touched. -/
+theorem C02_unknown_start_meaning (s : St) (pid : Nat) (x : Inst)
+    (hf : s.kern.find pid = some x) (hh : s.kern.isHidden pid = true) :
+    step cfg s (.c (.newObj pid))
+      = ({ s with ps := { s.ps with objs := s.ps.objs ++ [⟨pid, none, none, false, false, x.start⟩] } },
+         .obj s.ps.objs.length) := by
+  have hneg : ¬ ((pid : Int) < 0) := by omega
+  simp [step, hneg, mkObj, hf, hh]
+
+/-- **C02_eq_unknown_start.** In any state: two objects whose start is unknown are equal exactly when they have
+    the same PID (whatever processes they were built for); an object with unknown start never equals one
+    with a known start (even when both were built for the same process). -/
+theorem C02_eq_unknown_start (s : St) (i j : Nat) (a b : PObj)
+    (ha : s.ps.objs[i]? = some a) (hb : s.ps.objs[j]? = some b) (hna : a.ident = none) :
+    (b.ident = none → (step cfg s (.c (.eq i j))).2 = .bool (a.pid == b.pid))
+    ∧ (b.ident ≠ none → (step cfg s (.c (.eq i j))).2 = .bool false) := by
+  rw [step_eq_out cfg s ha hb, hna]
+  constructor
+  · intro hnb; rw [hnb]; simp
+  · intro hnb
+    cases hbi : b.ident with
+    | none => exact absurd hbi hnb
+    | some v => simp
+
+/-- **C02_isRunning_unknown_start.** In any state: `is_running()` of an unflagged object whose start is unknown is
+    True exactly when its PID is listed and the stat file of whoever holds it now is unreadable too (the fresh
+    `Process(pid)` then also gets `(pid, None)`) — it follows the readability of the PID, not the process. -/
+theorem C02_isRunning_unknown_start (s : St) (i : Nat) (o : PObj) (ho : s.ps.objs[i]? = some o)
+    (hn : o.ident = none) (hg : o.gone = false) (hr : o.reused = false) :
+    (step cfg s (.c (.isRunning i))).2 = .bool ((s.kern.find o.pid).isSome && s.kern.isHidden o.pid) := by
+  rw [step_isRunning_out cfg s ho]
+  congr 1
+  unfold isRunningO
+  simp only [hg, hr, Bool.or_self, Bool.false_eq_true, if_false, mkObj]
+  cases hf : s.kern.find o.pid with
+  | none => rfl
+  | some x =>
+    cases hh : s.kern.isHidden o.pid with
+    | true => simp [hn]
+    | false => simp [hn]
+
+/-- histories that may hide `/proc/pid/stat`: only "the published boot time is never 0" is asked -/
+def HistAnyReadability (h : List Ev) : Prop := ∀ e ∈ h, ∀ b, e = .k (.setBtime b) → b ≠ 0
+
+def EqIffSame_AnyReadability_Full (c : Cfg) : Prop :=
+  ∀ (b0 : Nat), b0 ≠ 0 → ∀ (h : List Ev), HistAnyReadability h → ∀ (i j : Nat) (a b : PObj),
+    (run c (St.init b0) h).ps.objs[i]? = some a → (run c (St.init b0) h).ps.objs[j]? = some b →
+    (step c (run c (St.init b0) h) (.c (.eq i j))).2 = .bool (decide (SameIncarnation a b))
+
+def IsRunningIffListed_AnyReadability_Full (c : Cfg) : Prop :=
+  ∀ (b0 : Nat), b0 ≠ 0 → ∀ (h : List Ev), HistAnyReadability h → ∀ (i : Nat) (o : PObj),
+    (run c (St.init b0) h).ps.objs[i]? = some o →
+    (step c (run c (St.init b0) h) (.c (.isRunning i))).2 = .bool (listedB (run c (St.init b0) h).kern o)
+
+/-- one live process, seen once while its stat file is unreadable and once after it became readable -/
+def witnessUnknownThenKnown : List Ev :=
+  [.k (.spawn 8), .k (.hide 8 true), .c (.newObj 8), .k (.hide 8 false), .c (.newObj 8)]
+
+/-- an object built while stat was readable; the file then becomes unreadable -/
+def witnessKnownThenHidden : List Ev := [.k (.spawn 8), .c (.newObj 8), .k (.hide 8 true)]
+
+/-- an object with unknown start; its process ends and the PID goes to another unreadable process -/
+def witnessUnknownRecycled : List Ev :=
+  [.k (.spawn 8), .k (.hide 8 true), .c (.newObj 8), .k (.reap 8), .k (.spawn 8), .c (.newObj 8)]
+
+/-- **C02_unknown_start_counterexample** (characterisation, not a defect against C02 as stated: readability
+    changes are outside its quantifier).  With the extracted configuration, once stat files can be unreadable:
+    two objects of the same live process compare unequal (`witnessUnknownThenKnown`, and `is_running()` of the first
+    is False: the fresh `(8, t)` differs from `(8, None)`, the object is flagged "PID reused"); `is_running()` of
+    an object with a known start is False while its process is alive (`witnessKnownThenHidden`); and for an object
+    with unknown start `is_running()` stays True after its process ended, and it equals the object of the PID's
+    next owner (`witnessUnknownRecycled`). -/
+theorem C02_unknown_start_counterexample :
+    ¬ EqIffSame_AnyReadability_Full cfg ∧ ¬ IsRunningIffListed_AnyReadability_Full cfg
+    ∧ (step cfg (run cfg (St.init 1000) witnessKnownThenHidden) (.c (.isRunning 0))).2 = .bool false
+    ∧ listedB (run cfg (St.init 1000) witnessKnownThenHidden).kern ⟨8, some (0 + cfg.clk * 1000), some (0 + cfg.clk * 1000), false, false, 0⟩ = true
+    ∧ (step cfg (run cfg (St.init 1000) witnessUnknownRecycled) (.c (.isRunning 0))).2 = .bool true
+    ∧ (step cfg (run cfg (St.init 1000) witnessUnknownRecycled) (.c (.eq 0 1))).2 = .bool true := by
+  have h0 : (run cfg (St.init 1000) witnessUnknownThenKnown).ps.objs[0]? = some ⟨8, none, none, false, false, 0⟩ := by
+    decide
+  have h1 : (run cfg (St.init 1000) witnessUnknownThenKnown).ps.objs[1]?
+      = some ⟨8, some (0 + cfg.clk * 1000), some (0 + cfg.clk * 1000), false, false, 0⟩ := by decide
+  have hok : HistAnyReadability witnessUnknownThenKnown := by
+    intro e he b hb; subst hb; simp [witnessUnknownThenKnown] at he
+  refine ⟨?_, ?_, by decide, by decide, by decide, by decide⟩
+  · intro H
+    have := H 1000 (by decide) witnessUnknownThenKnown hok 0 1 _ _ h0 h1
+    revert this; decide
+  · intro H
+    have := H 1000 (by decide) witnessUnknownThenKnown hok 0 _ h0
+    revert this; decide
+
 end Psutil.C02
